@@ -1448,16 +1448,10 @@ func (w *world) planProper(op Op, kd *kind) (p planned) {
 		}
 		return setq("(butlast "+A+")", a[:n-1])
 	case "subseq":
-		if n == 0 {
-			return skip("avoided:subseq-of-empty-list")
-		}
 		s := op.K % (n + 1)
 		e := s + op.J%(n-s+1)
 		return setq(fmt.Sprintf("(subseq %s %d %d)", A, s, e), a[s:e])
 	case "subseq-noend":
-		if n == 0 {
-			return skip("avoided:subseq-of-empty-list")
-		}
 		s := op.K % (n + 1)
 		return setq(fmt.Sprintf("(subseq %s %d)", A, s), a[s:])
 	case "copy-list", "copy-seq":
@@ -2417,7 +2411,7 @@ func init() {
 			"then seeded random histories (any variable as target and as any argument; every fifth starts by making a dotted list out of a pool list). " +
 			"An operation the language does not define for an improper list (sequence functions, mapcar, member, append / revappend / nreconc with a dotted non-last argument, add, push onto an atom ...) is still run: an error is accepted and the result is not judged, but the frame rule applies. " +
 			"distinct = distinct program text; non-trivial = at least one operation ran and at least two variables hold non-empty lists at the end. " +
-			"never generated: subseq of an empty list (type-error) and remove-duplicates of a list holding both nil and the empty tail of a one-element list (they are not equal in slip) - C14/C16's concern; circular structures, dotted sub-lists, atoms other than fixnums as the cdr, (setf (cdr x)) (not implemented in slip), sub-lists as variable values, map-into into a list sharing cells with its arguments, mapc (its results are discarded); nothing else is avoided",
+			"never generated: remove-duplicates of a list holding several nils (nil and the empty tail of a one-element list are kept both by slip's remove-duplicates, the harness cannot tell them apart) - C14/C16's concern; circular structures, dotted sub-lists, atoms other than fixnums as the cdr, (setf (cdr x)) (not implemented in slip), sub-lists as variable values, map-into into a list sharing cells with its arguments, mapc (its results are discarded); nothing else is avoided",
 		N:     nCases,
 		Gen:   gen,
 		Exec:  exec,
